@@ -151,6 +151,17 @@ def read(prog, rep, tag):
                 # the segmented loop as a whole lies on the fitting edge
                 segs = b.calls_to("SdoSegmented::upload")
                 okc = okc and all(c.bb in le_dom for c in segs)
+                # ... and so does the normal-upload path: the test that decides normal vs segmented
+                # (complete_size against the mailbox data length) is itself past the guard
+                normal = False
+                for c2 in q.conds(b):
+                    if c2 is cd or c2.kind != "cmp" or c2.op not in ("Le", "Gt", "Lt", "Ge"):
+                        continue
+                    pf = Prov(b, follow_all={"num::saturating_sub"})
+                    l2, r2 = pf.of_operand(c2.lhs), pf.of_operand(c2.rhs)
+                    if any(x[0] == "call" and x[1].endswith("unpack_from_slice") for x in l2 | r2) and has_root(l2 | r2, "field", "MailboxHeader", "length"):
+                        normal = c2.bb in le_dom
+                okc = okc and normal
     rep.ob(P, "too-long-guard" + tag, okc, "complete_size > buf.len() returns Err(TooLong{..}) and every copy into the destination lies on the other edge", loc=b.span)
     # toggle
     nots = []
